@@ -801,12 +801,24 @@ func ruleR29(c *Ctx) *RuleResult {
 		nIn, nDesc, nExt, nClimb := 0, 0, 0, 0
 		boundedBy := func(g *GC, idx *Term, coll string) bool {
 			// the path knows idx < len(node.<coll>) (or 0 <= idx for a decrement)
-			s := noEpoch(idx)
+			// (linear reading: `e > 0` bounds e-1 as well as `e-1 >= 0` does)
+			li := linOf(idx)
 			for _, a := range g.Guards {
-				if a.Op == "<" && noEpoch(a.Args[0]) == s && a.Args[1].Op == "len" && hasField(a.Args[1], coll) {
-					return true
+				if (a.Op != "<" && a.Op != "<=") || len(a.Args) != 2 {
+					continue
 				}
-				if a.Op == "<=" && a.Args[0].String() == "#:0" && noEpoch(a.Args[1]) == s {
+				strict := 0
+				if a.Op == "<" {
+					strict = 1
+				}
+				if a.Args[1].Op == "len" && hasField(a.Args[1], coll) {
+					// len - A >= strict; idx < len follows when A - idx + strict - 1 is a constant >= 0
+					if d := linOf(a.Args[0]).add(li, -1); len(d.c) == 0 && d.k+strict-1 >= 0 {
+						return true
+					}
+				}
+				// Y - X >= strict; 0 <= idx follows when idx - (Y - X) + strict is a constant >= 0
+				if d := li.add(linOf(a.Args[1]), -1).add(linOf(a.Args[0]), 1); len(d.c) == 0 && d.k+strict >= 0 {
 					return true
 				}
 			}
@@ -864,6 +876,34 @@ func ruleR29(c *Ctx) *RuleResult {
 						bad = append(bad, fmt.Sprintf("%s sets the entry to Entries[%s], which is none of: neighbouring entry, extreme entry after a descent, parent entry while climbing", sp.name, trunc(noEpoch(idx), 100)))
 					}
 				case "node":
+					if v.Op == "φ" && g.From != 0 && strings.HasPrefix(v.Leaf, itoa(g.From)+".") {
+						// the descent ran on a local cursor and is stored once at its end: the cursor's entry value is the
+						// adjoining child, every round moves it to its far-side child
+						j := atoiOr(v.Leaf[len(itoa(g.From))+1:], -1)
+						for _, h := range gc.GCs {
+							if h.Exit.Op != "goto" || h.Exit.Leaf != itoa(g.From) || j < 0 || j >= len(h.Exit.Args) {
+								continue
+							}
+							a := h.Exit.Args[j]
+							if !(a.Op == "load" && a.Args[0].Op == "ia" && hasField(a.Args[0].Args[0], "Children")) {
+								bad = append(bad, sp.name+" moves its descent cursor to something that is not a child: "+trunc(noEpoch(a), 100))
+								continue
+							}
+							idx := a.Args[0].Args[1]
+							switch {
+							case h.From != g.From && sp.descend(idx):
+								nDesc++
+								if !boundedBy(h, idx, "Children") {
+									bad = append(bad, sp.name+" descends into a child without knowing that it exists")
+								}
+							case h.From == g.From && sp.extreme(idx, "Children") && a.Args[0].Args[0].any(func(t *Term) bool { return t.Op == "φ" && t.Leaf == v.Leaf }):
+								// walking down the far side
+							default:
+								bad = append(bad, fmt.Sprintf("%s descends into Children[%s], which is neither the adjoining child of the current entry nor the far-side child on the way down", sp.name, trunc(noEpoch(idx), 100)))
+							}
+						}
+						continue
+					}
 					if v.Op == "load" && v.Args[0].Op == "ia" && hasField(v.Args[0].Args[0], "Children") {
 						idx := v.Args[0].Args[1]
 						switch {
